@@ -35,23 +35,27 @@ POOL = {
     # extreme but non-missing floats: they are values like any other for is_na / drop_na / replace_na / equal
     "inf": float("inf"), "-inf": float("-inf"), "-0.0": -0.0, "huge": 1.7976931348623157e308,
     "stamp": Stamp(2020, 1, 2, 12, 0, 0), "day": Day(2020, 1, 3),
+    # NumPy's own missing scalars: elements of a date / timedelta vector (e.g. `list(v[1:]) + [None]`) that are missing already
+    "np.nat": np.datetime64("NaT"), "np.tdnat": np.timedelta64("NaT"),
 }
+NAT_NAMES = ("np.nat", "np.tdnat")
 KIND = {"None": "none", "nan": "nan", "True": "bool", "False": "bool", "1": "int", "big": "int", "1.5": "float", "a": "str", "empty": "str",
         "date": "date", "datetime": "datetime", "timedelta": "timedelta", "bytes": "bytes", "tuple": "obj", "np.bool": "npbool",
         "np.int": "npint", "np.float": "npfloat", "np.nan": "npnan", "np.dt": "npdt", "np.str": "npstr",
-        "inf": "float", "-inf": "float", "-0.0": "float", "huge": "float", "stamp": "datesub", "day": "datesub"}
+        "inf": "float", "-inf": "float", "-0.0": "float", "huge": "float", "stamp": "datesub", "day": "datesub", "np.nat": "npnat", "np.tdnat": "nptdnat"}
 DTYPES = [None, "bool", "int", "float", "str", "object", "datetime64[D]", "datetime64[us]", "timedelta64[s]"]
 FAMILIES = [["True", "False"], ["1", "big"], ["1.5", "1"], ["a", "empty"], ["date"], ["datetime"], ["timedelta"], ["bytes"], ["tuple", "1"],
             ["np.bool"], ["np.int"], ["np.float", "np.nan"], ["np.dt"], ["np.str"], ["True", "1"], ["1", "a"], ["date", "datetime"],
             ["True", "1.5"], ["a", "1.5"], ["1.5", "inf", "-inf"], ["inf", "-0.0", "huge", "1"],
-            ["stamp"], ["day"], ["stamp", "datetime"], ["day", "date"]]
+            ["stamp"], ["day"], ["stamp", "datetime"], ["day", "date"],
+            ["np.nat"], ["np.nat"], ["np.nat", "np.dt"], ["np.nat", "date"], ["np.tdnat"]]
 
 
 def gen_case(rng, tier):
     n = rng.choice([0, 1, 2, 3, 4, 6])
     fam = list(rng.choice(FAMILIES))
     if rng.random() < 0.15:
-        fam = rng.sample(list(POOL), rng.randint(1, 3))
+        fam = rng.sample([k for k in POOL if k not in NAT_NAMES], rng.randint(1, 3))
     na = rng.random()
     names = []
     for _ in range(n):
@@ -63,6 +67,8 @@ def gen_case(rng, tier):
     if rng.random() < 0.08:
         names = [rng.choice(["None", "nan"]) for _ in range(n)]
     dtype = rng.choice([None, None, None] + DTYPES)
+    if any(n in NAT_NAMES for n in names):
+        dtype = None          # (judged by the laws on the real object only: the kind-level model has no NaT scalar)
     return {"op": "construct", "names": names, "dtype": dtype}
 
 
@@ -119,7 +125,7 @@ def dclass(v):
 
 
 def is_missing_input(name):
-    return KIND[name] in ("none", "nan", "npnan")
+    return KIND[name] in ("none", "nan", "npnan", "npnat", "nptdnat")
 
 
 def pyeq(a, b):
@@ -202,10 +208,14 @@ def impl(case):
             fill = np.datetime64("2001-01-01")
         if fill is None and res["dclass"] == "timedelta":
             fill = np.timedelta64(7, "s")
-        r = v.replace_na(fill)
-        rl = r.tolist()
-        laws["replace_na"] = len(r) == len(v) and not any(bool(x) for x in r.is_na()) and \
-            all((pyeq(a, b) if not m else True) for a, b, m in zip(tl, rl, na))
+        if str(v.dtype) in ("datetime64", "timedelta64"):
+            # an all-missing vector built from NaT scalars has NumPy's GENERIC unit: NumPy refuses to put any value that has a
+            # unit into it ("Cannot convert from specific units to generic units"): there is no fill value to try
+            fill = None
+        r = v.replace_na(fill) if fill is not None else v.copy()
+        rl = r.tolist() if fill is not None else [0] * len(v)
+        laws["replace_na"] = fill is None or (len(r) == len(v) and not any(bool(x) for x in r.is_na()) and
+                                              all((pyeq(a, b) if not m else True) for a, b, m in zip(tl, rl, na)))
         laws["receiver_unchanged"] = [bool(x) for x in v.is_na()] == na
     except Exception as e:
         res["law_err"] = f"{type(e).__name__}: {e}"
@@ -214,6 +224,8 @@ def impl(case):
 
 
 def model_requests(case, obs):
+    if any(n in NAT_NAMES for n in case["names"]):
+        return []
     return [("construct", {"kinds": [KIND[n] for n in case["names"]], "empties": [n == "empty" for n in case["names"]], "dtype": case["dtype"]})]
 
 
@@ -226,7 +238,7 @@ def expected_na_capable(case):
 def judge(ctx, case, obs, mouts):
     names, dtype = case["names"], case["dtype"]
     ctx.count("dtype:" + str(dtype))
-    kinds = {KIND[n] for n in names} - {"none", "nan", "npnan"}
+    kinds = {KIND[n] for n in names} - {"none", "nan", "npnan", "npnat", "nptdnat"}
     miss = [is_missing_input(n) for n in names]
     nontrivial = len(names) >= 2 and any(miss) and not all(miss)
     if "err" in obs:
@@ -284,7 +296,7 @@ def judge(ctx, case, obs, mouts):
                 if law == "tolist_values" and not expected_na_capable(case):
                     continue
                 ctx.violation("oracle", f"law:{law}:{cls}", f"law {law} fails: {ok!r} (dtype {obs['dtype']})", case, obs)
-    if mouts is not None:
+    if mouts:
         m = mouts[0]
         if isinstance(m, dict) and "err" in m:
             ctx.violation("correspondence", "construct:model-error", f"model rejected the request: {m['err']}", case, obs, m)
